@@ -674,6 +674,12 @@ func (f Function) lambdaPrint(ps *ast.PrintState, out *strings.Builder) string {
 			needBraces = ast.Precedences[infix.Type()] < ast.LAMBDA
 		}
 	}
+	if !needBraces {
+		// A body whose text starts with { (a map literal operand, x=>{"a":1}+m) would read back as a block.
+		scratch := strings.Builder{}
+		f.Body.PrettyPrint(&ast.PrintState{Out: &scratch, Compact: ps.Compact})
+		needBraces = strings.HasPrefix(scratch.String(), "{")
+	}
 	if needBraces {
 		out.WriteString("{")
 	}
